@@ -9,4 +9,5 @@ INVARIANT CleanUntouched
 INVARIANT InOrder
 INVARIANT NoOkSkipped
 INVARIANT NoLenNeverSkipped
+INVARIANT NeverMixed
 CHECK_DEADLOCK FALSE
